@@ -7,7 +7,8 @@ register("C17",
          "histories of real TDVP algorithm objects (several objects per process on trees sharing identifiers and traversal sequences, "
          "time steps / runs / resets on a reused object; states already in canonical form w.r.t. any node (any leaf, inner node, root; "
          "centre moved around) or taken over from an earlier object before the path finder / TDVP object is built): update path and environment cache keys held by the object against the model and "
-         "the BFS oracle, cached blocks against a naive einsum contraction",
+         "the BFS oracle, cached blocks against a naive einsum contraction; histories of in-place edits of one state / operator pair (renames, exchanged "
+         "identifiers, contract + split under other names, deepcopy) between repeated init_cache_but_one calls, same observations at every initialisation",
          "Universal theorems (every rooted ordered tree with unique identifiers): linearise (permutation, children first, root last); root paths; "
          "path_from_to is the unique simple tree path; distances from every centre equal path lengths; subtree/leaves/size queries; the TDVP update "
          "path is a permutation of the nodes, starts at the first deepest leaf and ends at a node of degree <= 1; init_cache_but_one creates exactly one "
